@@ -122,6 +122,9 @@ func (in InputSpec) Castable() (castable, equal bool) {
 		return true, true
 	case "int32", "int16":
 		return true, false
+	case "utf8":
+		// casting an empty string column succeeds vacuously
+		return len(in.Vals) == 0, false
 	}
 	return false, false
 }
